@@ -234,8 +234,9 @@ def _reinit(r, pairs, kw):
     return r
 
 
-def offer(tag, value, olds=()):
-    """-> (response or None, header name, exception or None); `olds`: values the header already holds"""
+def offer(tag, value, olds=(), copied=False):
+    """-> (response or None, header name, exception or None); `olds`: values the header already holds; `copied`: the
+    value is offered to a copy of the response (Response.copy(cls=HTTPResponse), what redirect() makes)"""
     kind, name, fn = ENTRIES[tag]
     r = None
     try:
@@ -244,6 +245,8 @@ def offer(tag, value, olds=()):
             r.headers[KEEP] = "kept"
             for o in olds:
                 r.headers.append(name, o)
+            if copied:
+                r = r.copy(cls=HTTPResponse)
             fn(r, name, value)
         else:
             r = fn(name, value, olds)
@@ -277,11 +280,11 @@ def verdict(tag, olds, r, name, exc, text, bad):
 
 
 # ---------------------------------------------------------------- query makers: units
-def make_value(tag, n, olds=()):
+def make_value(tag, n, olds=(), copied=False):
     def q(v: str):
         assume(len(v) <= n)
         bad, wide = scan(v)
-        r, name, exc = offer(tag, v, olds)
+        r, name, exc = offer(tag, v, olds, copied)
         if exc is not None:
             cover("rejected" if bad else "clean-value-refused")     # the latter is tolerated, see LEVEL_NOTE
         elif bad:
@@ -289,6 +292,40 @@ def make_value(tag, n, olds=()):
         else:
             cover("accepted-non-ascii" if wide else "accepted")
         return verdict(tag, olds, r, name, exc, v, bad)
+    return q
+
+
+def make_copied_headers(tag, n, olds):
+    """the value is offered to HeaderDict.copy() of a header set that already holds `olds` (what Response.copy hands to the
+    new response): refusal of CR/LF/NUL as everywhere, and whatever the copy holds afterwards is clean text"""
+    _kind, name, fn = ENTRIES[tag]
+
+    def q(v: str):
+        assume(len(v) <= n)
+        bad, wide = scan(v)
+        r0 = Response()
+        for o in olds:
+            r0.headers.append(name, o)
+        holder = type("Holder", (), {})()
+        holder.headers = r0.headers.copy()
+        try:
+            fn(holder, name, v)
+        except (ValueError, TypeError):
+            cover("rejected" if bad else "clean-value-refused")
+            held = holder.headers.get(name)
+        else:
+            unused = REF_CALL[tag] == "setdefault" and len(olds) > 0
+            if bad and not unused:
+                return "%s on a copy of headers holding %r accepted a value whose text is %r" % (tag, olds, v)
+            cover("accepted-non-ascii" if wide else "accepted")
+            held = holder.headers.get(name)
+        for x in (held if isinstance(held, list) else [held]):
+            if x is not None and scan(str(x))[0]:
+                return "copy of headers holding %r holds %r after %s(%r)" % (olds, held, tag, v)
+        for x, o in zip(r0.headers.get(name) if isinstance(r0.headers.get(name), list) else [r0.headers.get(name)], olds):
+            if x != o:
+                return "%s on the copy changed the original: %r" % (tag, r0.headers.get(name))
+        return None
     return q
 
 
@@ -691,6 +728,18 @@ def queries(tier):
                          % (tag, olds, nv, anytext), timeout=100 if not T else 300,
                          expect_cover=["rejected", "accepted", "accepted-non-ascii"], family="value",
                          config={"entry": tag, "holds": list(olds)}))
+    # the same on a copy of the response (since seed C14-j: what a copy hands back for a multi-valued header)
+    for state, tags in ((("list2", ("append",)), ("existing", ("append",))) if not T else
+                        (("list2", ("append", "setitem", "setdefault")), ("list3", ("append",)), ("existing", ("append", "setdefault")))):
+        for tag in tags:
+            # (Response.copy itself refuses a multi-valued header on the pinned tree - TypeError, outside this property -
+            #  so lists are offered to HeaderDict.copy(), single values to Response.copy(cls=HTTPResponse) as redirect() makes it)
+            out.append(Q("copied-%s/%s" % (state, tag), make_value(tag, 2, OLDS[state], copied=True) if state == "existing" else
+                         make_copied_headers(tag, 2, OLDS[state]),
+                         "entry point %s on a copy of a response / of its headers whose "
+                         "header already holds %r; value = fully symbolic str, len <= 2 (%s)" % (tag, OLDS[state], anytext),
+                         timeout=100 if not T else 300, expect_cover=["rejected", "accepted", "accepted-non-ascii"], family="value",
+                         config={"entry": tag, "holds": list(OLDS[state]), "copied": True}))
     for tag, olds in ([("setitem", ()), ("append", ("old",)), ("ctor-kw", ())] if not T else
                       [(t, ()) for t in ENTRIES] + [("append", ("old1", "old2")), ("setdefault", ("old",))]):
         for rng in (["dense"] if not T and tag != "setitem" else ["dense", "pow2"] if not T else ["dense", "dense2", "pow2", "big"]):
